@@ -29,8 +29,8 @@ brk_sc("c33-broker-native-server-always-permitted",
        "    def get_permutation_seed(self):\n        return self._storage.permutation_seed",
        "        return True\n\n    def get_permutation_seed(self):\n        return self._storage.permutation_seed")
 brk_sc("c33-broker-verifier-built-without-keys",
-       "            self.storage_client_config.grid_manager_keys,\n            [SignedCertificate.load(",
-       "            [],\n            [SignedCertificate.load(",
+       "            self.storage_client_config.grid_manager_keys,\n            certificates,",
+       "            [],\n            certificates,",
        note="configured grid-manager keys never reach the verifier: every announced server is permitted")
 brk_sc("c33-broker-verifier-bound-to-other-identity",
        '"pub-{}".format(str(server_id, "ascii")).encode("ascii"),',
